@@ -244,8 +244,9 @@ def addSubSequence (s : Sequence) (pos : Int) (sub : Sequence) : Res Sequence :=
                 sequencing := Dict.upsert s.sequencing pos defaultSeqSub }, none⟩
 
 /-- `Sequence.checkConsistency()`; raises KeyError without a sample rate.  A stored subsequence
-    whose own `channels` query raises SequenceConsistencyError (it is inconsistent itself) makes the
-    answer False; any other exception of that query propagates. -/
+    whose own `channels` query raises SequenceConsistencyError (it is inconsistent itself) or KeyError
+    (it holds no element, or has no sample rate) makes the answer False (D27, D28); any other
+    exception of that query propagates. -/
 def checkConsistency (s : Sequence) : Except Err Bool :=
   if !(Dict.has s.awgspecs "SR") then .error .key else
   match (Dict.vals s.data).mapM Entry.getSR with
@@ -253,7 +254,7 @@ def checkConsistency (s : Sequence) : Except Err Bool :=
   | .ok srs =>
     if !Element.allSame srs then .ok false else
     match (Dict.vals s.data).mapM Entry.channels with
-    | .error er => if er = .consistency then .ok false else .error er
+    | .error er => if er = .consistency ∨ er = .key then .ok false else .error er
     | .ok chans =>
       if !allEqLast (chans.map channelListSorter) then .ok false
       else .ok (gapFree (Dict.keys s.data))
